@@ -369,7 +369,7 @@ def check_C17(tier, seed):
                 scs.append(S.registry_script("%s-%d.a%d" % (cfg.replace(".cfg", ""), i, mask), [[p] for p in policies], classes,
                                              edges_of(reg), methods, defs, abstract=abstract, observe=()))
         F.execute_and_validate("C17", exe, scs, out, "c17-" + cfg, TCFG)
-    scs = random_scripts(rng, 300 if tier == "quick" else 5000, policies, (), max_n=9, abstract_p=0.35)
+    scs = random_scripts(rng, 900 if tier == "quick" else 8000, policies, (), max_n=9, abstract_p=0.35)
     F.execute_and_validate("C17", exe, scs, out, "c17-rnd", TCFG)
     # reports of real programs: really abstract classes (is_abstract from std::is_abstract_v)
     lat = F.gen_registries("GenLat_P4any.cfg", out, module="GenLat.tla")
